@@ -4,9 +4,30 @@
 //  2.14 return: "cause the shell to stop executing the current function"; exit passes through the boundary.
 pub mod functions {
     use vstd::prelude::*;
+    use super::*;
     #[verifier::external_body]
     pub struct Registration { _p: u8 }
+    impl Registration {
+        pub uninterp spec fn def(&self) -> ast::FunctionDefinition;
+        #[verifier::external_body]
+        pub fn definition(&self) -> (r: &ast::FunctionDefinition) ensures *r == self.def() { unimplemented!() }
+    }
 }
+#[verifier::external_body]
+pub struct CommandArg { _p: u8 }
+pub mod interp {
+    use vstd::prelude::*;
+    use super::*;
+    // applying one definition-time redirection: touches the parameters, never the two stacks or the event log; may fail
+    #[verifier::external_body]
+    pub fn setup_redirect(shell: &mut Shell, params: &mut ExecutionParameters, redirect: &ast::IoRedirect) -> (r: Result<(), error::Error>)
+        ensures final(shell).trace() == old(shell).trace(), final(shell).frames() == old(shell).frames(), final(shell).scopes() == old(shell).scopes(),
+            final(shell).leave_errs() == old(shell).leave_errs(), final(params).suppress_errexit == old(params).suppress_errexit,
+    { unimplemented!() }
+}
+// rule R15: the positional-argument iterator (`args.iter().map(|a| a.to_string())`) is a value no contract mentions
+#[verifier::external_body]
+pub fn vx_any<T>() -> T { unimplemented!() }
 #[verifier::external_body]
 pub struct PosArgs { _p: u8 }
 #[verifier::external_body]
